@@ -110,4 +110,10 @@ META = {
         "note": "In-process simulator, restart = new incarnation in the same process (fenced predecessor). Liveness of running tasks is judged by quiescence, never by a timeout alone.",
         "technique": "property-based testing (rapid), stateful model-based oracle (explicit state machine), fault injection, resource-level invariants",
     },
+    "C06": {
+        "text": "Fault-injection scenarios over the full in-process service with two tasks: generated fault class, position, persistence, batching and task placement; an end-state oracle on task states, reasons, downstream traffic, checkpoints and on what arrives after resume. Found four defects, all fixed: error events without task id pause another task in the store while the failing one runs on and skips the failing messages; a failure of one task ends the shared loops / batch of its target; the resume time filter uses the shifted target time and drops unacknowledged source messages.",
+        "design_ref": "DESIGN.md section 4 C06",
+        "note": "In-process; a panic of the service kills the test binary and is reported by the driver as a violation (no recover in harness goroutines).",
+        "technique": "property-based testing (rapid), fault injection at generated positions, end-state oracle judged at quiescence",
+    },
 }
